@@ -87,6 +87,7 @@ func (st *vkSetup) pollutions(k int) []vkPol {
 		out = append(out, vkPol{"sibling-wrap", 0})
 		if st.delegName() != nil {
 			out = append(out, vkPol{"child-apex", 0})
+			out = append(out, vkPol{"child-wrap", 0})
 		}
 	} else {
 		for i := 0; i < len(st.Alt) && i < 2; i++ {
@@ -131,6 +132,12 @@ func (st *vkSetup) makeSet(idx []int, pol vkPol) []dns.RR {
 		d := vkPres(st.delegName())
 		set = append(set, &dns.NSEC{Hdr: dns.RR_Header{Name: d, Rrtype: dns.TypeNSEC, Class: dns.ClassINET, Ttl: 300},
 			NextDomain: "a." + d, TypeBitMap: vkSortedTypes(dns.TypeNS, dns.TypeSOA, dns.TypeRRSIG, dns.TypeNSEC, dns.TypeDNSKEY)})
+	case "child-wrap":
+		// the LAST NSEC of the child zone (its NextDomain wraps back to the child apex), replayed next to the
+		// parent's records: under the parent signer it bounds nothing above the child's subtree
+		d := vkPres(st.delegName())
+		set = append(set, &dns.NSEC{Hdr: dns.RR_Header{Name: "z." + d, Rrtype: dns.TypeNSEC, Class: dns.ClassINET, Ttl: 300},
+			NextDomain: d, TypeBitMap: vkSortedTypes(dns.TypeA, dns.TypeRRSIG, dns.TypeNSEC)})
 	case "params2":
 		set = append(set, st.Alt[pol.Arg])
 	case "sibling", "child-zone":
@@ -785,7 +792,9 @@ func (e *vkExplorer) evalSet(st *vkSetup, zi, si int, idx []int, pol vkPol, polI
 		}
 	}
 	onlyDS := pol.Kind == "child-apex"
-	onlyAggr := st.Kind == "nsec" && pol.Kind == "class-flip"
+	// child-wrap: judged on the aggressive (RFC 8198) evaluators, which bind a set to its signer zone themselves;
+	// the validator-side verifiers rely on the caller's signature check for that (C01 territory)
+	onlyAggr := st.Kind == "nsec" && (pol.Kind == "class-flip" || pol.Kind == "child-wrap")
 	for qi := range e.qs {
 		t := truths[qi]
 		q := e.qs[qi].Labels
@@ -898,6 +907,13 @@ func TestVerifC02Verifiers(t *testing.T) {
 		zones = append(zones, []int{14})
 		for i := 0; i < tier.nCands; i++ {
 			zones = append(zones, []int{i, 14})
+		}
+		// ... and the delegation at "a" (owners exist canonically after its subtree), likewise
+		zones = append(zones, []int{15})
+		for i := 0; i < tier.nCands; i++ {
+			if !vkEq(vkCands[i].Rel, vkCands[15].Rel) {
+				zones = append(zones, []int{i, 15})
+			}
 		}
 	}
 	e := &vkExplorer{c: c, tier: tier, qs: vkQueryNames(tier.alpha, tier.alpha3, tier.alpha4), ntCap: 1500000, oc: map[string]int64{}, seenKey: map[string]bool{}, complete: map[string]int64{}}
